@@ -49,6 +49,22 @@ def run_guard(name, readonly):
         xs = Cell(LazyV('xs', XS), 'xs')
         E.ctx.env.update(dict(sys0=sysv, cell=cell))
         mod, mk = CALLS[name]
+        if name == 'call_generic':
+            # a guard that moved would let execution continue into the call machinery: make that executable
+            # (same declared cuts as the CALL obligations, precompile dispatch included with an arbitrary answer)
+            from mirsym.models_evm import word_int
+            E.cuts['get_memory_region'] = lambda E2, c: ok(none('Option<MemoryRegion>'), c.dest_ty)
+            E.cuts['copy_to_memory'] = lambda E2, c: ok(UNIT, c.dest_ty)
+            E.cuts['<EthAddress as From>::from'] = lambda E2, c: LazyV('dst_eth', 'fil_actors_evm_shared::address::EthAddress')
+            E.cuts['<Address as From>::from'] = lambda E2, c: E2.materialize(ADDR, 'dst_addr')
+            E.cuts['is_reserved_precompile_address'] = lambda E2, c: E2.ctx.fresh_bool('dst_is_precompile')
+            E.cuts['System::call_gas_limit'] = lambda E2, c: E2.materialize('u64', 'gas_limit')
+            E.cuts['<TokenAmount as From>::from'] = lambda E2, c: BigV(word_int(E2, c.args[0]))
+
+            def precompile(E2, c):
+                E2.ctx.env['precompile_called'] = True
+                return ok(VecV([], 'Vec<u8>'), c.dest_ty)
+            E.cuts['Precompiles::call_precompile'] = precompile
         fn = ifn(E, name, mod)
         args = [RefV(xs, (), True), RefV(cell, (), name != 'log')] + mk(E)
         return E.run_function(fn, args), rt
@@ -69,7 +85,7 @@ def props_guard(name):
             e = E.deref(res.value.fields[('Err', 0)])
             code = fget(E, fget(E, e, 0, 'ExitCode'), 0, 'u32').v
             P.append(('refused with the read-only exit code', code == 25))
-        P.append(('nothing takes effect: no send, no event, no state commit', len(rt.sends) == 0 and len(rt.events) == 0 and rt.commits == 0))
+        P.append(('nothing takes effect: no send, no event, no state commit, no precompile run', len(rt.sends) == 0 and len(rt.events) == 0 and rt.commits == 0 and not env.get('precompile_called')))
         P.append(('pending contract state untouched', env['cell'].value is env['sys0'] or deep_same(E, env['cell'].value, env['sys0'])))
         return P
     return props
